@@ -611,6 +611,7 @@ func laPages(c *Ctx, rule string) {
 		want["Offset"] = "DataPageOffset"
 	}
 	found := 0
+	pageBases := map[*ssa.Function][]string{}
 	for _, f := range u.Funcs {
 		if u.pkgPathOf(f) != rtPath || f.Synthetic != "" {
 			continue
@@ -643,12 +644,40 @@ func laPages(c *Ctx, rule string) {
 				r.count(rule+"/page-fields", 1)
 				key := fmt.Sprintf("%s Page.%s", u.FnName(f), fld.Name())
 				src := fieldOfLoad(stripConvert(st.Val))
+				if src != nil && src.Pkg() != nil && src.Pkg().Path() == schPath {
+					// the chunk the value is read from: ….MetaData.X -> the MetaData object; ….FileOffset -> the chunk itself
+					if ld, ok := stripConvert(st.Val).(*ssa.UnOp); ok {
+						if fa, ok := ld.X.(*ssa.FieldAddr); ok {
+							base := symExpr(fa.X, 0)
+							base = strings.TrimSuffix(strings.TrimPrefix(base, "load("), ".MetaData)")
+							pageBases[f] = append(pageBases[f], base)
+						}
+					}
+				}
 				if src == nil || src.Name() != w || src.Pkg() == nil || src.Pkg().Path() != schPath {
 					r.bad(rule, key, u.Pos(st.Pos()), fmt.Sprintf("Page.%s is %s, want the chunk's %s from the file's column metadata: the reader's page loops compare it with %s", fld.Name(), symExpr(st.Val, 0), w, map[string]string{"N": "the summed num_values of the pages read", "Size": "the bytes consumed from the file (compressed)", "Codec": "nothing — it selects the decompressor", "Offset": "nothing — the reader seeks to it (at " + offsetUsed + "); file_offset is deprecated and 0, or past the pages, in files of other writers"}[fld.Name()]))
 				} else {
 					r.ok(rule, key, u.Pos(st.Pos()), "from "+w)
 				}
 			}
+		}
+	}
+	// all of them describe ONE chunk: the metadata they are read from is the same object
+	for fn, bases := range pageBases {
+		uniq := map[string]bool{}
+		for _, b := range bases {
+			uniq[b] = true
+		}
+		key := u.FnName(fn) + " Page describes one chunk"
+		if len(uniq) > 1 {
+			var l []string
+			for b := range uniq {
+				l = append(l, b)
+			}
+			sort.Strings(l)
+			r.bad(rule, key, u.Pos(fn.Pos()), "the fields of one Page are read from different chunks: "+strings.Join(l, " vs ")+": a column is then read with another column's codec, size or count (files whose columns differ in codec are misread)")
+		} else {
+			r.ok(rule, key, u.Pos(fn.Pos()), "N, Size, Codec (Offset) all come from the same chunk's metadata")
 		}
 	}
 	if found == 0 {
@@ -1105,6 +1134,71 @@ func laFooterMeta(c *Ctx, rule string, which map[string]bool) {
 		}
 		r.count(rule+"/path-in-schema", n)
 		r.floor(rule+"/path-in-schema", 1, "updateColumnChunk")
+	}
+	if which["totals"] {
+		// the footer schema's group elements: the group made for path prefix element k takes its repetition from the
+		// column's repetition codes at the SAME index k
+		rep := schemaField(u, "SchemaElement", "RepetitionType")
+		n := 0
+		for _, f := range u.Funcs {
+			if u.pkgPathOf(f) != rtPath || f.Synthetic != "" || rep == nil {
+				continue
+			}
+			loops := countedLoops(f)
+			for _, b := range f.Blocks {
+				for _, ins := range b.Instrs {
+					st, ok := ins.(*ssa.Store)
+					if !ok || fieldOf(st.Addr) != rep {
+						continue
+					}
+					cell, ok := st.Val.(*ssa.Alloc)
+					if !ok {
+						continue
+					}
+					// what the cell holds: FieldRepetitionType(<codes>[idx])
+					for _, ref := range *cell.Referrers() {
+						s2, ok := ref.(*ssa.Store)
+						if !ok || s2.Addr != ssa.Value(cell) {
+							continue
+						}
+						ld, ok := stripConvert(s2.Val).(*ssa.UnOp)
+						if !ok || ld.Op != token.MUL {
+							continue
+						}
+						ia, ok := ld.X.(*ssa.IndexAddr)
+						if !ok {
+							continue
+						}
+						if tf := fieldOfLoad(ia.X); tf == nil || tf.Name() != "Types" {
+							continue
+						}
+						n++
+						key := u.FnName(f) + " group repetition"
+						// the index must be the index of the loop over the path prefix whose element names the group
+						okIdx := false
+						for _, l := range loops {
+							if l.idx != ia.Index {
+								continue
+							}
+							seq := l.seq
+							if sl, ok := seq.(*ssa.Slice); ok && (sl.Low == nil || constIs(sl.Low, 0)) {
+								seq = sl.X
+							}
+							if pf := fieldOfLoad(seq); pf != nil && pf.Name() == "Path" {
+								okIdx = true
+							}
+						}
+						if okIdx {
+							r.ok(rule, key, u.Pos(s2.Pos()), "group k of the path takes the column's repetition code k")
+						} else {
+							r.bad(rule, key, u.Pos(s2.Pos()), "the repetition of the group made for element k of the column's path is read from "+symExpr(ia.Index, 0)+" of its repetition codes, want the same index k: groups are declared with a neighbour's repetition (an optional group whose first field is required comes out REQUIRED)")
+						}
+					}
+				}
+			}
+		}
+		r.count(rule+"/group-repetition", n)
+		r.floor(rule+"/group-repetition", 1, "schema.schema()")
 	}
 	if which["rows"] {
 		// Metadata.RowGroups(): Rows <- NumRows
